@@ -140,7 +140,8 @@ fn main() {
             }
             if let Some(mut m) = merged {
                 m["wall_s"] = Value::from(t0.elapsed().as_secs_f64());
-                if !runner::write_evidence(&format!("/verif/evidence/{}.json", prop), &m) {
+                let dir = std::env::var("VERIF_EVIDENCE_DIR").unwrap_or_else(|_| "/verif/evidence".to_string());
+                if !runner::write_evidence(&format!("{}/{}.json", dir, prop), &m) {
                     exit = 2;
                 }
             }
